@@ -82,7 +82,7 @@ Val(env, key) ==
 (* ---- denotation as atom sequences (cells and FLEX) ---- *)
 Pieces(v, w) == {SubSeq(v, a, b) : a \in 1..(Len(v) + 1), b \in 0..Len(v)}      \* contiguous pieces (SubSeq with b < a is empty)
 ItemAlts(env, it) ==
-    IF it.k = "lit" THEN {it.text}
+    IF it.k = "lit" THEN {TabX(it.text, 8)}           \* a tab in a literal is painted as tab-width blanks (the default width; C16 has the other widths)
     ELSE LET v == Val(env, it.text) IN
          IF it.text = K_wide_msg THEN {<<FLEX>> \o v \o <<FLEX>>}          \* fills the line: padding is free (the terminal is wider than the line)
          ELSE IF it.text = K_wide_bar THEN {<<BARA>>}                      \* a bar of whatever width is left, nothing else
